@@ -16,6 +16,7 @@ mod wal;
 
 pub use broadcast::BroadcastChannel;
 pub use buffer::WriteBuffer;
+pub(crate) use parquet_writer::exact_float_encoding;
 pub use parquet_writer::ParquetWriter;
 pub use topic_broadcast::{
     BatchMetadata, FilteredReceiver, TopicBatch, TopicBroadcastChannel, TopicFilter,
